@@ -1,6 +1,7 @@
 package main
 
 import (
+	"sort"
 	"strconv"
 	"strings"
 	"testing/synctest"
@@ -12,6 +13,12 @@ import (
 // joinRun: krt.JoinCollection over 2-3 static collections of Obj, a namespace index on the join,
 // subscribers on the join.  Lean: JoinSpec.lean / JoinDriver.lean.
 type joinRun struct {
+	nested    bool // stream joinn: krt.NestedJoinWithMergeCollection over a static collection of collections
+	outer     krt.StaticCollection[krt.Collection[Obj]]
+	member    []bool
+	quiet     bool // nested: nothing happened since the last barrier
+	needSync  bool // nested: an outer change waits for its barrier
+	undisc    bool // nested: the rule "the outer collection changes at quiescent points only" was broken
 	merge     bool // stream joinm: krt.JoinWithMergeCollection
 	derived   bool // jd: the joined collections are derived copies of the static ones
 	unchecked bool // ju: krt.WithJoinUnchecked (the generator keeps the keys disjoint)
@@ -22,6 +29,8 @@ type joinRun struct {
 	state   []map[string]Obj
 	j       krt.Collection[Obj]
 	idx     krt.Index[string, Obj]
+	inner   []krt.Collection[Obj]
+	vidx    krt.Index[string, Obj] // by the +-separated parts of Val: the bucket changes when the object changes
 	touched map[string][]int
 	unsafeK []string
 	nsubs   int
@@ -33,11 +42,12 @@ func newJoinRun(head []string) runner {
 	if err != nil || n < 0 {
 		n = 2
 	}
-	r := &joinRun{merge: strings.HasPrefix(head[2], "joinm"), flagged: contains(head[4:], "jr"), derived: contains(head[4:], "jd"), unchecked: contains(head[4:], "ju"), stop: make(chan struct{}), touched: map[string][]int{},
+	r := &joinRun{nested: strings.HasPrefix(head[2], "joinn"), merge: strings.HasPrefix(head[2], "joinm") || strings.HasPrefix(head[2], "joinn"), flagged: contains(head[4:], "jr"), derived: contains(head[4:], "jd"), unchecked: contains(head[4:], "ju"), stop: make(chan struct{}), touched: map[string][]int{},
 		subs: map[string]*subscriber{}}
 	for i := 0; i < n; i++ {
 		r.cols = append(r.cols, krt.NewStaticCollection[Obj](nil, nil, krt.WithStop(r.stop), krt.WithName("c"+strconv.Itoa(i))))
 		r.state = append(r.state, map[string]Obj{})
+		r.member = append(r.member, false)
 	}
 	return r
 }
@@ -71,6 +81,21 @@ func (r *joinRun) multi() []string {
 	return ks
 }
 
+// mergeSorted is the order independent merge function of the joinn stream (Lean: nmergeOne).
+func mergeSorted(ts []Obj) *Obj {
+	if len(ts) == 0 {
+		return nil
+	}
+	// never nil for a non-empty input: nestedjoinmerge.handleCollectionUpdate relies on that (istio's merge
+	// functions return nil for an empty input only)
+	vals := make([]string, len(ts))
+	for i, t := range ts {
+		vals[i] = t.Val
+	}
+	sort.Strings(vals)
+	return &Obj{NS: ts[0].NS, Name: ts[0].Name, Val: strings.Join(vals, "+")}
+}
+
 // mergeObjs is the merge function of the joinm stream (Lean: mergeOne).
 func mergeObjs(ts []Obj) *Obj {
 	if len(ts) == 0 || ts[0].Val == "v3" {
@@ -97,15 +122,32 @@ func (r *joinRun) touch(k string, i int) {
 	}
 }
 
-func (r *joinRun) barrier() { r.touched = map[string][]int{} }
+func (r *joinRun) barrier() {
+	r.touched = map[string][]int{}
+	r.quiet, r.needSync = true, false
+}
 
-func (r *joinRun) inU(k string) bool { return r.flagged && contains(r.unsafeK, k) }
+func (r *joinRun) innerOp() {
+	if r.nested && r.started {
+		r.undisc = r.undisc || r.needSync
+		r.quiet = false
+	}
+}
+
+func (r *joinRun) outerOp() {
+	if r.nested && r.started {
+		r.undisc = r.undisc || !r.quiet || r.needSync
+		r.quiet, r.needSync = false, true
+	}
+}
+
+func (r *joinRun) inU(k string) bool { return r.flagged && (r.nested || contains(r.unsafeK, k)) }
 
 func (r *joinRun) guard() string {
 	switch {
 	case !r.started:
 		return "not-started"
-	case !r.flagged && len(r.unsafeK) > 0:
+	case !r.flagged && (len(r.unsafeK) > 0 || r.undisc):
 		return "undisciplined"
 	}
 	return ""
@@ -127,7 +169,17 @@ func (r *joinRun) start() {
 	if r.unchecked {
 		opts = append(opts, krt.WithJoinUnchecked())
 	}
-	if r.merge {
+	if r.nested {
+		var members []krt.Collection[Obj]
+		for i, c := range cs {
+			if r.member[i] {
+				members = append(members, c)
+			}
+		}
+		r.inner = cs
+		r.outer = krt.NewStaticCollection[krt.Collection[Obj]](nil, members, krt.WithStop(r.stop), krt.WithName("outer"))
+		r.j = krt.NestedJoinWithMergeCollection[Obj](r.outer, mergeSorted, opts...)
+	} else if r.merge {
 		r.j = krt.JoinWithMergeCollection(cs, mergeObjs, opts...)
 	} else {
 		r.j = krt.JoinCollection(cs, opts...)
@@ -141,6 +193,7 @@ func (r *joinRun) start() {
 		}
 	}
 	r.idx = krt.NewIndex[string, Obj](r.j, "ns", func(o Obj) []string { return []string{o.NS} })
+	r.vidx = krt.NewIndex[string, Obj](r.j, "val", func(o Obj) []string { return strings.Split(o.Val, "+") })
 	r.startState()
 }
 
@@ -177,6 +230,7 @@ func (r *joinRun) step(toks []string) (string, string) {
 		if err != nil || !ok || i < 0 || i >= len(r.cols) {
 			return "bad-op", line
 		}
+		r.innerOp()
 		r.touch(o.ResourceName(), i)
 		r.state[i][o.ResourceName()] = o
 		r.cols[i].UpdateObject(o)
@@ -187,9 +241,35 @@ func (r *joinRun) step(toks []string) (string, string) {
 			return "bad-op", line
 		}
 		if _, f := r.state[i][toks[2]]; f {
+			r.innerOp()
 			r.touch(toks[2], i)
 			delete(r.state[i], toks[2])
 			r.cols[i].DeleteObject(toks[2])
+		}
+		return "ok", line
+	case (toks[0] == "o.add" || toks[0] == "o.del" || toks[0] == "o.touch") && len(toks) == 2:
+		i, err := strconv.Atoi(toks[1])
+		if err != nil || i < 0 || i >= len(r.cols) {
+			return "bad-op", line
+		}
+		if toks[0] != "o.touch" || r.member[i] {
+			r.outerOp()
+		}
+		switch toks[0] {
+		case "o.add":
+			r.member[i] = true
+			if r.started && r.nested {
+				r.outer.UpdateObject(r.inner[i])
+			}
+		case "o.del":
+			r.member[i] = false
+			if r.started && r.nested {
+				r.outer.DeleteObject(krt.GetKey(r.inner[i]))
+			}
+		default:
+			if r.started && r.nested && r.member[i] {
+				r.outer.UpdateObject(r.inner[i]) // an Update event with the same collection
+			}
 		}
 		return "ok", line
 	case toks[0] == "start" && len(toks) == 1:
@@ -206,6 +286,8 @@ func (r *joinRun) step(toks []string) (string, string) {
 		if toks[2] == "nostate" {
 			synctest.Wait()
 			r.barrier()
+		} else {
+			r.innerOp()
 		}
 		r.addUnsafe(r.multi())
 		r.nsubs++
@@ -247,6 +329,8 @@ func (r *joinRun) step(toks []string) (string, string) {
 		}), line
 	case toks[0] == "lookup" && len(toks) == 2:
 		return "lookup " + answer(false, func() string { return showObjs(r.idx.Lookup(toks[1]), notU) }), line
+	case toks[0] == "vlookup" && len(toks) == 2:
+		return "vlookup " + answer(false, func() string { return showObjs(r.vidx.Lookup(toks[1]), notU) }), line
 	case toks[0] == "ulookup" && len(toks) == 2:
 		return "ulookup " + answer(true, func() string { return showObjs(r.idx.Lookup(toks[1]), r.inU) }), line
 	case (toks[0] == "stream" || toks[0] == "ustream") && len(toks) == 2:
